@@ -8,7 +8,10 @@ results are compared with list operations on the shadow list (vf/models/logmodel
 
 Usage variations of the writer: a part of the logs is written while a second log file of the same process is open (write_pair: both
 files are judged, each against the records logged while it was open), and one log per shard list is a burst of some ten thousand
-records logged back-to-back while the writer thread does not get to run (write_burst).
+records logged back-to-back while the writer thread does not get to run (write_burst); a part of the logs is written to a path at
+which a file is already present (place_preexisting: the log of an earlier run, a truncated one, a non-zstd file, an empty file).
+Usage variation of the reader: a part of the histories on one reused reader object runs with a second reader object open on another
+log, used in between; each reader is judged against its own log (exec_history).
 """
 
 from __future__ import annotations
@@ -44,7 +47,12 @@ TECHNIQUE = (
     "trees, any order of opening/closing, each file judged separately against the records logged while it was open) and a burst of "
     "some ten thousand records logged back-to-back in the schedule in which the writer thread does not run meanwhile; for these logs "
     "the decompressed file itself is compared with the shadow list first (marker sequence), with a control run (the same records with "
-    "one open file / a short burst) that tells whether the situation matters"
+    "one open file / a short burst) that tells whether the situation matters. History before the run: about a fifth of the logs is "
+    "written to a path at which a file is already present (the complete log of an earlier run of the real writer, such a log cut short, "
+    "a file that is no zstd file, an empty file); the decompressed file is compared with the shadow list of this run (control: the same "
+    "log written to a fresh path). Usage variation of the reader: about half of the histories on a reused reader object run with a "
+    "second reader object open on another log of another length (any container), operations on the two readers alternate and every "
+    "result is compared with the slice of that reader's own log (control: the operations of the failing reader alone)"
 )
 LEVEL_TEXT = (
     "Exploration: some hundred (quick) to ten thousand (thorough) generated logs of length 0..3000 (arbitrary Unicode scalar "
@@ -53,7 +61,8 @@ LEVEL_TEXT = (
     "slice of the shadow list. About a fifth of the logs is written by several runs whose .zst files are joined; every log is also "
     "read from a .zst of several frames and a .gz of several members. About a third of the single-run logs is written while a second log "
     "file of the same process is open (both files are read back and judged); one log per quick run (four per thorough run) is a burst of "
-    "26 000..110 000 records logged in one tight loop. Held means held on those logs and mode parameters."
+    "26 000..110 000 records logged in one tight loop. About a fifth of the logs is written to a path at which a file exists already; "
+    "about half of the reader histories run with a second reader object open on another log. Held means held on those logs and mode parameters."
 )
 LEVEL_NOTE = (
     "Trusted: the list model in vf/models/logmodel.py, the zstandard/gzip libraries used to derive the other containers from "
@@ -84,7 +93,15 @@ RULE = (
     "event | at 1..5 points incl. just before the later log is opened | nowhere); the log itself gets its usual cases, the second one len + forward + hr forward + 9 sampled cases + one "
     "history. Burst: one shard logs 26 000..35 000 (thorough: four shards, up to 110 000) record specs (no traces, no %-arguments) in one "
     "loop of prepared calls with the interpreter's thread switch interval raised (writer thread starved; thorough: one burst free-running), "
-    "then len, forward, reverse, offset k, forward on another container, hr tail/head n<=60 and hr forward at 'critical'"
+    "then len, forward, reverse, offset k, forward on another container, hr tail/head n<=60 and hr forward at 'critical'. "
+    "File present at the log path (30% of the generated logs without a second open log, seven enumerated ones; every run file of the log): "
+    "earlier-log = 0..n+20 record specs (markers from #id900000# on) logged by the real writer in a handler lifetime that ended before | "
+    "truncated-log = such a file cut to a share 0..1 of its bytes (at least one byte missing) | stale-bytes = plain log lines, a gzip member, "
+    "text or arbitrary bytes of 1..5000 bytes | empty-file. Two readers open: the second and half of the third histories of a log get a "
+    "second reader object on an earlier log of the shard or on the second log of the pair (record count different and not 0; container "
+    "drawn from all reader containers), with 1..2 operations (len 30%, offset k 30%, reverse 15%, forward, partial forward, iteration with "
+    "len) in one gap between two operations of the first reader for certain and in every other gap (also before the first and after "
+    "the last operation) with probability 0.45"
 )
 ASSUMPTIONS = [
     "text is any sequence of Unicode scalar values (no lone surrogates); every text starts with a unique marker '#id<i>#' and payloads/tags never contain '#id'",
@@ -106,6 +123,12 @@ ASSUMPTIONS = [
     "installed, on a logger at or below the one the handler was attached to, at or above the file level (Python logging propagation)",
     "a burst is judged like any other record sequence: every record logged is in the file, however far the writer thread is behind; "
     "raising sys.setswitchinterval only selects one legal schedule of the producer and the writer thread",
+    "the produced log of a run holds what that run logged: whatever is present at the log path before add_zst_log_handler (the log of an "
+    "earlier run in a re-used directory, a leftover of a killed run, a file of another format) is history and is not part of it "
+    "(quantifier 'histories'; the statement names no exception for re-used paths)",
+    "the statement is about each log and its reader: a PenlogReader yields the slices of the log it was opened on whether or not other "
+    "PenlogReader objects are open in the process and whatever is done with them in between (operations are not nested: one reader's "
+    "operation ends before the other reader is used)",
 ]
 EXHAUSTIVE = {"quick": False, "thorough": False}
 EXHAUSTIVE_NOTE = "exhaustive sub-space: for the enumerated edge logs with <=3 records all thresholds 0..8 x modes x containers x n in {0..len+2, default} are run"
@@ -118,6 +141,7 @@ LOGGER_NAMES = ["gallia.c17", "gallia.scanner.\u00fc7", "gallia.a.b.c"]
 SECOND_ROOT = "c17second"
 SECOND_LOGGER_NAMES = ["c17second", "c17second.run.\u00e4", "c17second.a.b"]
 SECOND_ID0 = 500_000  # markers of the records of the second log start here, so that a record in the wrong file is recognisable
+PRE_ID0 = 900_000  # markers of the records of an earlier run whose log is found at the log path when the run starts
 # "zst-frames" / "gz-members": the same decompressed bytes as a .zst of several zstd frames / a .gz of several gzip members
 READER_CONTAINERS = ["zst", "plain", "gz", "noprefix", "mixedprefix", "zst-frames", "gz-members"]
 HR_CONTAINERS = ["zst", "plain", "gz", "noprefix", "mixedprefix", "zst-frames", "gz-members", "stdin-file", "stdin-pipe"]
@@ -130,11 +154,13 @@ MARK = re.compile(r"#id(\d+)#")
 def shards(tier: str, seed: int) -> list[dict[str, Any]]:
     n = 16
     # "burst": that many records logged back-to-back in one tight loop (one shard in the quick tier: a burst is costly)
+    # the shard's own limit follows the runner's budget knobs (VERIF_QUICK_BUDGET / VERIF_THOROUGH_BUDGET, defaults 75 / 600 s)
+    scale = float(os.environ.get("VERIF_QUICK_BUDGET", 75)) / 75 if tier == "quick" else float(os.environ.get("VERIF_THOROUGH_BUDGET", 600)) / 600
     if tier == "quick":
-        out = [{"part": i, "parts": n, "logs": 26, "maxlen": 600, "sub": 6, "wall": 42.0} for i in range(n)]
+        out = [{"part": i, "parts": n, "logs": 26, "maxlen": 600, "sub": 6, "wall": 42.0 * scale} for i in range(n)]
         out[5].update(burst=26000 + (seed * 3571) % 9000, logs=22)
         return out
-    out = [{"part": i, "parts": n, "logs": 640, "maxlen": 3000, "sub": 40, "wall": 400.0} for i in range(n)]
+    out = [{"part": i, "parts": n, "logs": 640, "maxlen": 3000, "sub": 40, "wall": 400.0 * scale} for i in range(n)]
     for i, b in ((1, 24000), (5, 40000), (9, 64000), (13, 100000)):
         out[i].update(burst=b + (seed * 3571) % 9000, burst_schedule="free-running" if i == 5 else "writer-starved")
     return out
@@ -193,6 +219,18 @@ def required_reach(tier: str) -> dict[str, int]:
         "writer.two-logs-open.with-waits-for-the-writer-threads": 8, "writer.two-logs-open.without-waits": 4,
         "writer.burst": 1, "writer.burst.writer-starved": 1, "writer.burst.ge-20000-records": 1,
         "writer.burst.writer-thread-behind-by-half-the-burst": 1, "reader.burst-log": 4, "hr.burst-log": 3,
+    })
+    # two reader objects open at the same time on different logs, used alternately; something present at the log path before the run
+    need.update({
+        "reader.two-readers-open": 100, "reader.two-readers-open.logs-of-different-lengths": 100, "reader.two-readers-open.operation-on-second-reader": 300,
+        "reader.two-readers-open.record-index-used-again-after-the-other-reader-used-one": 150,
+        "reader.two-readers-open.len-again-after-the-other-reader-used-a-record-index": 50,
+        "writer.file-exists-at-log-path": 12, "writer.file-exists-at-log-path.file-not-empty": 10,
+        "writer.file-exists-at-log-path.log-of-an-earlier-run": 6, "writer.file-exists-at-log-path.earlier-log-has-records": 5,
+        "writer.file-exists-at-log-path.earlier-log-has-more-records-than-this-run-logs": 2,
+        "writer.file-exists-at-log-path.not-a-zstd-file": 2, "writer.file-exists-at-log-path.truncated-log-of-an-earlier-run": 2,
+        "writer.file-exists-at-log-path.empty-file": 1, "writer.file-exists-at-log-path.file-not-empty.this-run-logs-nothing": 1,
+        "writer.file-exists-at-log-path.file-not-empty.log-written-in-several-runs": 3,
     })
     if tier == "thorough":
         need.update({"writer.burst": 4, "writer.burst.writer-starved": 3, "writer.burst.free-running": 1, "writer.burst.ge-20000-records": 4,
@@ -348,7 +386,44 @@ def gen_logdef(rng: random.Random, maxlen: int, force_long: bool = False) -> dic
         ld["runs"] = sorted(rng.randint(0, n) if rng.random() < 0.2 else rng.randint(lo, max(n - 1, lo)) for _ in range(rng.choice([1, 1, 1, 2, 3])))
     elif not long_log and rng.random() < 0.4:
         ld["pair"] = gen_pair(rng, n)
+    # history: something is already present at the log path when the run starts (a re-used directory, a fixed path, a retry)
+    if "pair" not in ld and rng.random() < 0.3:
+        ld["preexisting"] = gen_preexisting(rng, n)
     return ld
+
+
+def gen_preexisting(rng: random.Random, n: int) -> dict[str, Any]:
+    """What lies at the log path before the run adds its file handler (every run file of the log gets it):
+    'earlier-log' = the complete log of an earlier run of the real writer (record specs with markers from #id900000# on, also none, also more
+    than this run logs), 'truncated-log' = such a log cut short (the earlier run was killed), 'stale-bytes' = a file that is no zstd
+    file at all (plain log lines, a gzip member, arbitrary bytes), 'empty-file' = a file of 0 bytes."""
+    k = rng.randrange(100)
+    if k < 55 or 75 <= k < 90:
+        r = rng.randrange(10)
+        m = 0 if r == 0 and k < 55 else (rng.randint(1, 3) if r < 4 else (rng.randint(4, 30) if r < 8 else n + rng.randint(1, 20)))
+        pre: dict[str, Any] = {"kind": "earlier-log" if k < 55 else "truncated-log", "file_level": rng.choice(["trace", "trace", "info"]),
+                               "logger": rng.choice(LOGGER_NAMES), "specs": [gen_spec(rng, PRE_ID0 + i) for i in range(min(m, 200))]}
+        if k >= 75:
+            pre["keep"] = rng.choice([0.0, 0.5, 0.9, 1.0, round(rng.random(), 3)])  # share of the file that is left (at least one byte is cut off)
+        return pre
+    if k < 75:
+        return {"kind": "stale-bytes", "form": rng.choice(["plain-log-lines", "plain-log-lines", "gzip-member", "arbitrary-bytes", "text"]),
+                "size": rng.choice([1, 40, 500, 5000]), "seed": rng.randrange(1 << 30)}
+    return {"kind": "empty-file"}
+
+
+def stale_bytes(pre: dict[str, Any]) -> bytes:
+    """The content of a pre-existing file that is not a zstd file (harness made, determined by the literal)."""
+    rng = random.Random(f"C17/stale/{pre['seed']}")
+    size = int(pre["size"])
+    if pre["form"] in ("plain-log-lines", "gzip-member"):
+        lines = b"".join(b'<6>{"module": "old", "host": "h", "data": "' + marker(PRE_ID0 + i).encode() + b' stale line", "datetime": '
+                         b'"2020-01-01T00:00:00.000000+00:00", "priority": 6, "version": 2}\n' for i in range(1 + size // 150))
+        return lines if pre["form"] == "plain-log-lines" else gzip.compress(lines, mtime=0)
+    if pre["form"] == "text":
+        return (marker(PRE_ID0).encode() + b" stale leftover, not a zstd frame\n" * (1 + size // 34))[:max(size, 12)]
+    out = bytes(rng.randrange(256) for _ in range(size))
+    return out if out[:4] != b"\x28\xb5\x2f\xfd" else b"x" + out[1:]
 
 
 def gen_pair(rng: random.Random, n: int) -> dict[str, Any]:
@@ -469,6 +544,22 @@ def edge_logdefs(tier: str) -> list[dict[str, Any]]:
                          "events": "A+" + "a " * 20 + "~ B+" + "a b ~ " * 30 + "B-" + "a " * 10 + "A-"}})
     out.append({"file_level": "trace", "logger": "gallia.c17", "specs": simple_specs(["info"]),
                 "pair": {"mode": "same-logger", "second": second([], "gallia.c17"), "events": "A+B+a B-A-"}})
+    # something is present at the log path when the run starts
+    def earlier(methods: list[str], kind: str = "earlier-log", **kw: Any) -> dict[str, Any]:
+        return {"kind": kind, "file_level": "trace", "logger": "gallia.c17", "specs": [dict(sp, i=PRE_ID0 + sp["i"]) for sp in simple_specs(methods, "earlier run")], **kw}
+
+    out.append({"file_level": "trace", "logger": "gallia.c17", "specs": simple_specs(["notice", "trace", "warning", "critical"]),
+                "preexisting": earlier(["info", "error", "debug"])})
+    out.append({"file_level": "trace", "logger": "gallia.c17", "specs": [], "preexisting": earlier(["info", "error", "debug"])})
+    out.append({"file_level": "info", "logger": "gallia.a.b.c", "specs": simple_specs(["info", "debug", "error"]), "runs": [1],
+                "preexisting": earlier([L[i % 7] for i in range(12)])})
+    out.append({"file_level": "trace", "logger": "gallia.c17", "specs": simple_specs(["info", "warning"]),
+                "preexisting": {"kind": "stale-bytes", "form": "text", "size": 33, "seed": 1}})
+    out.append({"file_level": "trace", "logger": "gallia.c17", "specs": simple_specs(["error"]),
+                "preexisting": earlier(["info"] * 40, "truncated-log", keep=0.5)})
+    out.append({"file_level": "debug", "logger": "gallia.c17", "specs": simple_specs(["error", "debug", "trace", "info", "notice"]),
+                "preexisting": {"kind": "stale-bytes", "form": "plain-log-lines", "size": 500, "seed": 2}})
+    out.append({"file_level": "trace", "logger": "gallia.c17", "specs": simple_specs(["info", "info", "debug", "critical"]), "preexisting": {"kind": "empty-file"}})
     out.append({"file_level": "trace", "logger": "gallia.c17", "specs": [
         {"i": 0, "m": "error", "text": " long lines ", "tags": None, "rep": ["line\n", (1 << 16) // 5]},
         {"i": 1, "m": "info", "text": " long astral ", "tags": None, "rep": ["\U0001f600", (1 << 20) if tier == "thorough" else (1 << 18)]},
@@ -630,6 +721,33 @@ def emit_record(lg: Any, spec: dict[str, Any]) -> dict[str, Any]:
         raise RuntimeError("shadow capture out of step (level)")
     entry["created"] = created
     return entry
+
+
+def place_preexisting(pre: dict[str, Any], paths: list[Path]) -> dict[str, Any]:
+    """History before the run: leave a file at every path the run is going to log to -> facts for the reach counters.
+    The log of an earlier run is written by the real writer (its own handler lifetime, ended before the run starts)."""
+    from gallia.log import Loglevel, add_zst_log_handler, get_logger, remove_zst_log_handler
+
+    kind = pre["kind"]
+    facts = {"kind": kind, "earlier_records": 0, "bytes": 0}
+    for path in paths:
+        if kind in ("earlier-log", "truncated-log"):
+            lg = get_logger(pre["logger"])
+            handler = add_zst_log_handler("gallia", path, Loglevel(M.LEVELNO[pre["file_level"]]))
+            try:
+                entries = [emit_record(lg, spec) for spec in pre["specs"]]
+            finally:
+                remove_zst_log_handler("gallia", handler)
+            facts["earlier_records"] = len(M.written(entries, M.LEVELNO[pre["file_level"]]))
+            if kind == "truncated-log":
+                data = path.read_bytes()
+                path.write_bytes(data[:min(int(len(data) * float(pre["keep"])), len(data) - 1)])
+        elif kind == "stale-bytes":
+            path.write_bytes(stale_bytes(pre))
+        else:
+            path.write_bytes(b"")
+        facts["bytes"] = path.stat().st_size
+    return facts
 
 
 def write_log(logdef: dict[str, Any], paths: list[Path]) -> list[dict[str, Any]]:
@@ -901,7 +1019,8 @@ class _NullCtx:
     case = trace = sample = evals = reach
 
 
-SITUATION_KEY = {"two-logs-open": "two-logs-open", "burst": "long-burst"}
+PRE_KIND_NAME = {"earlier-log": "log-of-an-earlier-run", "truncated-log": "truncated-log-of-an-earlier-run", "stale-bytes": "not-a-zstd-file", "empty-file": "empty-file"}
+SITUATION_KEY = {"two-logs-open": "two-logs-open", "burst": "long-burst", "pre-existing-file": "file-exists-at-log-path"}
 
 
 def build_log(ctx: Any, logdef: dict[str, Any], regen: dict[str, Any] | None = None) -> LogState | None:
@@ -916,14 +1035,19 @@ def build_log(ctx: Any, logdef: dict[str, Any], regen: dict[str, Any] | None = N
     st.dir = d
     zst = d / "log.json.zst"
     st.hash = h64(repr((logdef["file_level"], logdef["logger"], logdef["specs"], *([logdef["runs"]] if logdef.get("runs") else []),
-                        *([logdef["pair"]] if logdef.get("pair") else []), *([logdef["burst"]] if logdef.get("burst") else []))))
+                        *([logdef["pair"]] if logdef.get("pair") else []), *([logdef["burst"]] if logdef.get("burst") else []),
+                        *([logdef["preexisting"]] if logdef.get("preexisting") else []))))
     st.runs = len(run_segments(logdef)) if not (logdef.get("pair") or logdef.get("burst")) else 1
     run_files = [zst] if st.runs == 1 else [d / f"run{r}.json.zst" for r in range(st.runs)]
-    st.situation = "two-logs-open" if logdef.get("pair") else ("burst" if logdef.get("burst") else "")
+    pre = logdef.get("preexisting") if not (logdef.get("pair") or logdef.get("burst")) else None
+    st.situation = "two-logs-open" if logdef.get("pair") else ("burst" if logdef.get("burst") else ("pre-existing-file" if pre else ""))
     where = "writer/" + (SITUATION_KEY[st.situation] + "/" if st.situation else "")
     shadow_b = None
     facts: dict[str, Any] = {}
+    pre_facts: dict[str, Any] = {}
     try:
+        if pre:
+            pre_facts = place_preexisting(pre, run_files)
         if logdef.get("pair"):
             Env.log_no += 1
             d2 = Env.scratch / f"log{Env.log_no}"
@@ -975,6 +1099,20 @@ def build_log(ctx: Any, logdef: dict[str, Any], regen: dict[str, Any] | None = N
                 ctx.reach("writer.two-logs-open.second-log-has-records")
         else:
             drop_log(st2)
+    if pre:
+        base = "writer.file-exists-at-log-path"
+        ctx.reach(base)
+        ctx.reach(f"{base}.{PRE_KIND_NAME[pre['kind']]}")
+        if pre["kind"] == "earlier-log" and pre_facts["earlier_records"]:
+            ctx.reach(f"{base}.earlier-log-has-records")
+            if pre_facts["earlier_records"] > len(logdef["specs"]):
+                ctx.reach(f"{base}.earlier-log-has-more-records-than-this-run-logs")
+        if pre_facts["bytes"]:
+            ctx.reach(f"{base}.file-not-empty")
+            if not logdef["specs"]:
+                ctx.reach(f"{base}.file-not-empty.this-run-logs-nothing")
+            if st.runs > 1:
+                ctx.reach(f"{base}.file-not-empty.log-written-in-several-runs")
     if logdef.get("burst"):
         ctx.reach("writer.burst")
         ctx.reach(f"writer.burst.{logdef['burst']}")
@@ -1010,6 +1148,12 @@ def report_writer_failure(ctx: Any, st: LogState, kind: str, detail: str) -> Non
         if st.situation == "two-logs-open":
             control = written_alone(st)  # the same records with this file as the only open one
             ok = control is not None and content_failure(control) is None
+        elif st.situation == "pre-existing-file":
+            # the same log written to a path at which nothing is present
+            control = build_log(_NullCtx(), {k: v for k, v in st.logdef.items() if k != "preexisting"})
+            ok = control is not None and content_failure(control) is None
+            if control is not None:
+                drop_log(control)
         else:
             # the first 5000 records of the same burst, written the same way
             control = build_log(_NullCtx(), dict(st.logdef, specs=st.logdef["specs"][:5000]))
@@ -1687,102 +1831,202 @@ def eval_iter_len(st: LogState, cand: dict[str, Any], res: dict[str, Any]) -> tu
     return None
 
 
-def run_history(ctx: Any, st: LogState, rng: random.Random, ops: list[dict[str, Any]] | None = None, lead: str | None = None) -> None:
-    """lead: 'iter-len' makes the first operation a forward pass with len() asked inside it (the offset table has not been
-    built by anything before)."""
+def gen_history_op(st: LogState, rng: random.Random) -> dict[str, Any]:
+    k = rng.randrange(10)
+    p = rng.choice([8, 8, 8, rng.randrange(9)])
+    if rng.random() < 0.25:
+        return gen_iter_len_op(st, rng)
+    if k < 2:
+        return {"mode": "len"}
+    if k < 4:
+        return {"mode": "forward", "p": p}
+    if k < 6:
+        return {"mode": "partial", "p": 8, "j": rng.randint(1, st.N)}
+    if k < 9:
+        return {"mode": "offset", "p": p, "k": rng.randrange(-st.N, st.N)}
+    return {"mode": "reverse", "p": p}
+
+
+def gen_second_reader_op(other: LogState, rng: random.Random) -> dict[str, Any]:
+    """One operation on the second live reader object (mostly the ones that navigate by record index)."""
+    k = rng.randrange(20)
+    p = rng.choice([8, 8, 8, rng.randrange(9)])
+    if k < 6:
+        op: dict[str, Any] = {"mode": "len"}
+    elif k < 12:
+        op = {"mode": "offset", "p": p, "k": rng.randrange(-other.N, other.N)}
+    elif k < 15:
+        op = {"mode": "reverse", "p": p}
+    elif k < 17:
+        op = {"mode": "forward", "p": p}
+    elif k < 18:
+        op = {"mode": "partial", "p": 8, "j": rng.randint(1, other.N)}
+    else:
+        op = gen_iter_len_op(other, rng)
+    op["on"] = "B"
+    return op
+
+
+def interleave_second_reader(ops: list[dict[str, Any]], other: LogState, rng: random.Random) -> list[dict[str, Any]]:
+    """Operations on a second live reader (marked on='B') before, between and after the operations of the history; one of the
+    gaps between two operations of the first reader always gets one."""
+    must = rng.randrange(1, len(ops)) if len(ops) > 1 else 0
+    out: list[dict[str, Any]] = []
+    for g in range(len(ops) + 1):
+        if g == must or rng.random() < 0.45:
+            out += [gen_second_reader_op(other, rng) for _ in range(rng.choice([1, 1, 2]))]
+        if g < len(ops):
+            out.append(ops[g])
+    return out
+
+
+def random_access(op: dict[str, Any]) -> bool:
+    """Does the operation address a record by its index (anything but reading forward from the first record)?"""
+    return op["mode"] in ("len", "reverse", "iter-len") or (op["mode"] == "offset" and op["k"] != 0)
+
+
+HISTORY_OPNAME = {"partial": "forward", "offset": "seek", "reverse": "seek", "iter-len": "len-during-iteration"}
+
+
+def exec_history(ctx: Any, st: LogState, ops: list[dict[str, Any]], other: LogState | None = None, other_container: str = "zst",
+                 container: str = "zst") -> tuple[str, str, str, int, str] | None:
+    """Run the operations on one reader object of `st` (and, for operations marked on='B', on a second reader object that is open on
+    `other` at the same time; every reader is judged against its own log) -> None or (key, what, detail, index of the failing
+    operation, 'A'|'B')."""
     from gallia.log import PenlogReader
 
-    if st.N == 0:
+    target = {"A": st, "B": other}
+    cont = {"A": container, "B": other_container}
+    readers: dict[str, Any] = {}
+    read_before = {"A": False, "B": False}
+    table_needed_before = {"A": False, "B": False}  # did an earlier operation on this reader need the offset table (len, seek, reverse)?
+    used = {"A": False, "B": False}
+    ra_seq: list[str] = []  # the readers that were asked for a record by index so far, in order
+    try:
+        try:
+            readers["A"] = PenlogReader(st.paths[container])
+            if other is not None:
+                readers["B"] = PenlogReader(other.paths[other_container])
+        except Exception:
+            return None  # opening is judged by the fresh-reader cases
+        for idx, op in enumerate(ops):
+            who = op.get("on", "A")
+            tst, reader = target[who], readers[who]
+            assert tst is not None
+            cand = {"component": "reader", "container": cont[who], **{k: v for k, v in op.items() if k != "on"}}
+            if other is not None:
+                if who == "B":
+                    ctx.reach("reader.two-readers-open.operation-on-second-reader")
+                if random_access(op):
+                    if who in ra_seq and ra_seq[-1] != who:
+                        ctx.reach("reader.two-readers-open.record-index-used-again-after-the-other-reader-used-one")
+                        if op["mode"] == "len":
+                            ctx.reach("reader.two-readers-open.len-again-after-the-other-reader-used-a-record-index")
+                    ra_seq.append(who)
+            res = exec_reader(tst, cand, reader=reader)
+            first_use = not used[who]
+            used[who] = True
+            if op["mode"] == "iter-len":
+                d = op["dir"]
+                if who == "A":
+                    ctx.reach(f"reader.reuse.len-during-{d}-iteration")
+                    sel = len(M.accepted(tst.all, d, op["p"], k=op.get("off"))[0])
+                    if 0 < op["k"] < sel:
+                        ctx.reach(f"reader.reuse.len-during-{d}-iteration.records-before-and-after")
+                        if d == "forward" and not table_needed_before[who]:
+                            ctx.reach("reader.reuse.first-len-during-forward-iteration")
+                v = eval_iter_len(tst, cand, res)
+                if v is not None:
+                    key = f"reader/reuse/len-during-iteration/{d}/{v[0]}"
+                    # control: the same pass on a fresh reader without the len() call; the same failure there is not about len()
+                    ctl = dict(cand, call_len=False)
+                    cres = exec_reader(tst, ctl)
+                    cv = eval_iter_len(tst, ctl, cres)
+                    if cv is not None and cv[0] == v[0]:
+                        key = f"reader/{d}/{v[0]}"
+                    return (key, f"reused reader object: operation {idx}: {v[1]}", v[2], idx, who)
+                read_before[who] = True
+                table_needed_before[who] = True
+                continue
+            if op["mode"] in ("len", "offset", "reverse"):
+                table_needed_before[who] = True
+            if op["mode"] == "partial":
+                got = [rec_id(r.data) for r in (res["records"] or [])]
+                want = [e["id"] for e in tst.all[: op["j"]]]
+                verdict = None if (not res["exc"] and got == want) else ("reader/forward/" + (f"raises-{res['exc']}" if res["exc"] else M.classify(got, want)), "partial forward read", f"got {got[:40]} want {want[:40]}")
+            else:
+                verdict = evaluate(tst, cand, res)
+            if verdict is not None:
+                if first_use:
+                    key = verdict[0]
+                else:
+                    # len needs the offset table, offset/reverse seek through it, forward reading does not use it
+                    opname = HISTORY_OPNAME.get(op["mode"], op["mode"])
+                    kind = verdict[0].rsplit("/", 1)[-1]
+                    if not kind.startswith("raises-") and kind != "wrong-count":
+                        kind = "wrong-result"
+                    key = f"reader/reuse/{opname}-after-{'read' if read_before[who] else 'len'}/{kind}"
+                return (key, f"reused reader object: operation {idx} ({op['mode']}) disagrees with the model", verdict[2], idx, who)
+            if op["mode"] != "len":
+                read_before[who] = True
+        return None
+    finally:
+        for r in readers.values():
+            try:
+                r.close()
+            except Exception:
+                pass
+
+
+def run_history(ctx: Any, st: LogState, rng: random.Random, ops: list[dict[str, Any]] | None = None, lead: str | None = None,
+                other: LogState | None = None, other_container: str = "zst") -> None:
+    """lead: 'iter-len' makes the first operation a forward pass with len() asked inside it (the offset table has not been
+    built by anything before).  other: a second reader object is open on that log (container other_container) for the whole history and
+    is used between the operations of the first one (operations marked on='B'); it is judged against its own log."""
+    if st.N == 0 or (other is not None and other.N == 0):
         return
     if ops is None:
         ops = []
         if lead == "iter-len":
             ops.append(gen_iter_len_op(st, rng, "forward"))
         for _ in range(rng.randint(2, 5) - len(ops)):
-            k = rng.randrange(10)
-            p = rng.choice([8, 8, 8, rng.randrange(9)])
-            if rng.random() < 0.25:
-                ops.append(gen_iter_len_op(st, rng))
-            elif k < 2:
-                ops.append({"mode": "len"})
-            elif k < 4:
-                ops.append({"mode": "forward", "p": p})
-            elif k < 6:
-                ops.append({"mode": "partial", "p": 8, "j": rng.randint(1, st.N)})
-            elif k < 9:
-                ops.append({"mode": "offset", "p": p, "k": rng.randrange(-st.N, st.N)})
-            else:
-                ops.append({"mode": "reverse", "p": p})
-    ctx.case((st.hash, "history", tuple(cand_ident(o) for o in ops)))
+            ops.append(gen_history_op(st, rng))
+        if other is not None:
+            ops = interleave_second_reader(ops, other, rng)
+    ident = tuple(cand_ident(o) for o in ops)
+    ctx.case((st.hash, "history", ident) if other is None else (st.hash, "history", other.hash, other_container, ident))
     ctx.reach("reader.reuse")
     if st.runs > 1:
         ctx.reach("reader.reuse.zst-of-several-runs")
         if st.parts["zst"]["content_after_first_part"]:
             ctx.reach("reader.reuse.zst-of-several-runs.content-after-first-part")
-    try:
-        reader = PenlogReader(st.paths["zst"])
-    except Exception:
-        return  # opening is judged by the fresh-reader cases
-    read_before = False
-    table_needed_before = False  # did an earlier operation of this history need the offset table (len, seek, reverse)?
-    try:
-        for idx, op in enumerate(ops):
-            cand = {"component": "reader", "container": "zst", **op}
-            res = exec_reader(st, cand, reader=reader)
-            if op["mode"] == "iter-len":
-                d = op["dir"]
-                ctx.reach(f"reader.reuse.len-during-{d}-iteration")
-                sel = len(M.accepted(st.all, d, op["p"], k=op.get("off"))[0])
-                if 0 < op["k"] < sel:
-                    ctx.reach(f"reader.reuse.len-during-{d}-iteration.records-before-and-after")
-                    if d == "forward" and not table_needed_before:
-                        ctx.reach("reader.reuse.first-len-during-forward-iteration")
-                v = eval_iter_len(st, cand, res)
-                if v is not None:
-                    key = f"reader/reuse/len-during-iteration/{d}/{v[0]}"
-                    # control: the same pass on a fresh reader without the len() call; the same failure there is not about len()
-                    ctl = dict(cand, call_len=False)
-                    cres = exec_reader(st, ctl)
-                    cv = eval_iter_len(st, ctl, cres)
-                    if cv is not None and cv[0] == v[0]:
-                        key = f"reader/{d}/{v[0]}"
-                    ctx.violation(key, f"reused reader object: operation {idx}: {v[1]}",
-                                  {"log": st.witness_log(), "history": ops[: idx + 1], "failing_op": idx, "detail": v[2][:600], "n_records_in_file": st.N})
-                    ctx.trace(("history", key))
-                    return
-                read_before = True
-                table_needed_before = True
-                continue
-            if op["mode"] in ("len", "offset", "reverse"):
-                table_needed_before = True
-            if op["mode"] == "partial":
-                got = [rec_id(r.data) for r in (res["records"] or [])]
-                want = [e["id"] for e in st.all[: op["j"]]]
-                verdict = None if (not res["exc"] and got == want) else ("reader/forward/" + (f"raises-{res['exc']}" if res["exc"] else M.classify(got, want)), "partial forward read", f"got {got[:40]} want {want[:40]}")
-            else:
-                verdict = evaluate(st, cand, res)
-            if verdict is not None:
-                if idx == 0:
-                    key = verdict[0]
-                else:
-                    # len needs the offset table, offset/reverse seek through it, forward reading does not use it
-                    opname = {"partial": "forward", "offset": "seek", "reverse": "seek"}.get(op["mode"], op["mode"])
-                    kind = verdict[0].rsplit("/", 1)[-1]
-                    if not kind.startswith("raises-") and kind != "wrong-count":
-                        kind = "wrong-result"
-                    key = f"reader/reuse/{opname}-after-{'read' if read_before else 'len'}/{kind}"
-                ctx.violation(key, f"reused reader object: operation {idx} ({op['mode']}) disagrees with the model",
-                              {"log": st.witness_log(), "history": ops[: idx + 1], "failing_op": idx, "detail": verdict[2][:600], "n_records_in_file": st.N})
-                ctx.trace(("history", key))
-                return
-            if op["mode"] != "len":
-                read_before = True
-        ctx.trace(("history", "ok", tuple(o["mode"] for o in ops)))
-    finally:
-        try:
-            reader.close()
-        except Exception:
-            pass
+    if other is not None:
+        ctx.reach("reader.two-readers-open")
+        if other.N != st.N:
+            ctx.reach("reader.two-readers-open.logs-of-different-lengths")
+    fail = exec_history(ctx, st, ops, other, other_container)
+    if fail is None:
+        ctx.trace(("history", "ok", tuple(("B:" if o.get("on") == "B" else "") + o["mode"] for o in ops)))
+        return
+    key, what, detail, idx, who = fail
+    wit: dict[str, Any] = {"log": st.witness_log(), "history": ops[: idx + 1], "failing_op": idx, "detail": detail[:600], "n_records_in_file": st.N}
+    if other is not None:
+        # control: is the second live reader part of the mechanism?  The operations of the failing reader alone, on a fresh reader
+        # object with no other reader open: the same failure there is not about two readers
+        solo = [{k: v for k, v in o.items() if k != "on"} for o in ops[: idx + 1] if o.get("on", "A") == who]
+        tst = st if who == "A" else other
+        c = exec_history(_NullCtx(), tst, solo, container="zst" if who == "A" else other_container)
+        kind = key.rsplit("/", 1)[-1]
+        if c is not None and c[0].rsplit("/", 1)[-1] == kind:
+            key = c[0]
+        else:
+            if not kind.startswith("raises-") and kind != "wrong-count":
+                kind = "wrong-result"
+            key = f"reader/two-readers-open/{HISTORY_OPNAME.get(ops[idx]['mode'], ops[idx]['mode'])}/{kind}"
+            what = f"two reader objects open on different logs: operation {idx} ({ops[idx]['mode']}, {'first' if who == 'A' else 'second'} reader) disagrees with the model of its own log"
+        wit.update(other_log=other.witness_log(), other_container=other_container, n_records_in_other_file=other.N, failing_reader="first" if who == "A" else "second")
+    ctx.violation(key, what, wit)
+    ctx.trace(("history", key))
 
 
 # ---------------------------------------------------------------------------------------------
@@ -2017,7 +2261,8 @@ def process_log(ctx: Any, rng: random.Random, logdef: dict[str, Any], regen: dic
     try:
         est = 0.0006 + st.N * 60e-6 + len(st.raw) / 25e6
         budget = int(min(160, max(45, 2.5 / est)))
-        cands = plan(rng, st, budget, exhaustive and st.N <= 3 and len(st.raw) < (1 << 16))
+        # (the enumerated logs that only add a situation of the writer get the sampled plan)
+        cands = plan(rng, st, budget, exhaustive and st.N <= 3 and len(st.raw) < (1 << 16) and not logdef.get("preexisting"))
         ctx.sample({"file_level": logdef["file_level"], "records_logged": len(logdef["specs"]), "records_in_file": st.N,
                     "raw_bytes": len(st.raw), "first_specs": logdef["specs"][:2], "cases": len(cands),
                     "example_cases": cands[-2:]})
@@ -2038,9 +2283,17 @@ def process_log(ctx: Any, rng: random.Random, logdef: dict[str, Any], regen: dic
                 sc["component"] = "hr-subprocess"
                 run_case(ctx, st, sc)
                 Env.sub_left -= 1
-        for _ in range(2):
-            run_history(ctx, st, rng)
-        run_history(ctx, st, rng, lead="iter-len")
+        # histories on one reused reader object; the second one (and half of the third ones) with a second reader object open on
+        # another log of this shard (an earlier log or the second log of the pair, of another length, in any container)
+        others = [c for c in Env.companions if c is not st and c.N and c.N != st.N]
+        if st.second is not None and st.second.N and st.second.N != st.N:
+            others.append(st.second)
+        run_history(ctx, st, rng)
+        for lead in (None, "iter-len"):
+            if others and (lead is None or rng.random() < 0.5):
+                run_history(ctx, st, rng, lead=lead, other=rng.choice(others), other_container=rng.choice(["zst", "zst", *READER_CONTAINERS]))
+            else:
+                run_history(ctx, st, rng, lead=lead)
         run_multi_files(ctx, st, rng)
         if st.second is not None:
             process_second(ctx, rng, st.second)
@@ -2153,7 +2406,15 @@ def replay(ctx: Any, witness: dict[str, Any]) -> None:
     try:
         if "case" not in witness and "history" not in witness:
             return  # a failure of the writer itself: build() has reported it again
-        if "history" in witness:
+        if "history" in witness and "other_log" in witness:
+            otop, ost = build(expand(witness["other_log"]))
+            try:
+                if ost is not None:
+                    run_history(ctx, st, ctx.rng, ops=witness["history"], other=ost, other_container=witness.get("other_container", "zst"))
+            finally:
+                if otop is not None:
+                    drop_log(otop)
+        elif "history" in witness:
             run_history(ctx, st, ctx.rng, ops=witness["history"])
         else:
             run_case(ctx, st, witness["case"])
